@@ -70,7 +70,7 @@ def make_labels(kind, lt):
     return np.array(lt, dtype=str)
 
 
-def check_point(res, kind, lt, sort, exname, chunks, method, labels_dask=False, egkind="ndarray", reindex=None):
+def check_point(res, kind, lt, sort, exname, chunks, method, labels_dask=False, egkind="ndarray", reindex=None, func="sum"):
     import dask.array as da
 
     n = len(lt)
@@ -78,12 +78,12 @@ def check_point(res, kind, lt, sort, exname, chunks, method, labels_dask=False, 
     prov = 2.0 ** np.arange(n)
     V = np.stack([prov, prov * 2.0**n])
     requested = EXPECTED[kind][exname]
-    kw = dict(func="sum", sort=sort)
+    kw = dict(func=func, sort=sort)  # "argmax" goes through the grouped combine (the data increase with the position: argmax = last member)
     if requested is not None:
         import pandas as pd
 
         kw["expected_groups"] = np.array(requested) if egkind == "ndarray" else (pd.Index(requested) if egkind == "index" else list(requested))
-        kw["fill_value"] = -1.0
+        kw["fill_value"] = -1.0 if func == "sum" else -1
     arr = V
     by = labels
     if chunks is not None:
@@ -98,8 +98,8 @@ def check_point(res, kind, lt, sort, exname, chunks, method, labels_dask=False, 
     res.states += 1
     res.transitions += 1
     case = dict(kind=kind, labels=list(lt), sort=sort, expected=exname, chunks=list(chunks) if chunks else None, method=method,
-                labels_dask=labels_dask, egkind=egkind, reindex=reindex)
-    tags = dict(kind2=kind, sort=sort, expected=exname, chunked=chunks is not None, method=str(method), labels_dask=labels_dask, egkind=egkind,
+                labels_dask=labels_dask, egkind=egkind, reindex=reindex, func=func)
+    tags = dict(func=func, kind2=kind, sort=sort, expected=exname, chunked=chunks is not None, method=str(method), labels_dask=labels_dask, egkind=egkind,
                 reindex=str(reindex))
     size = n * 10 + (len(chunks) if chunks else 0)
     if chunks is not None and method == "blockwise":
@@ -151,6 +151,11 @@ def check_point(res, kind, lt, sort, exname, chunks, method, labels_dask=False, 
         if not problems:
             for j, lab in enumerate(got_labels):
                 pos = mem.get(lab, [])
+                if func == "argmax":
+                    if vals[0, j] != (max(pos) if pos else -1) or vals[1, j] != (max(pos) if pos else -1):
+                        problems.append(f"label {lab!r} is paired with position {vals[0, j]} but its last member is at {max(pos) if pos else 'nowhere (fill -1)'}")
+                        break
+                    continue
                 want = float(sum(prov[p] for p in pos)) if pos else -1.0
                 if vals[0, j] != want or vals[1, j] != (want * 2.0**n if pos else -1.0):
                     problems.append(f"label {lab!r} is paired with {vals[0, j]} (members {decode(vals[0, j], n)}) but its members are {pos}")
@@ -198,6 +203,9 @@ def run_shard(shard):
                         if method == "map-reduce" and len(ch) >= 2:
                             # intermediates reindexed at combine time instead of at the block stage
                             check_point(res, kind, lt, sort, exname, ch, method, reindex=False)
+                        if method in ("map-reduce", "cohorts") and len(ch) >= 2 and (not sort or "unsorted" in exname):
+                            # a reduction that is combined group by group (not by concatenation): its own reindexing path
+                            check_point(res, kind, lt, sort, exname, ch, method, func="argmax")
                     # chunked (dask) labels need expected_groups; given as ndarray / pandas Index / list
                     if exname in ("unsorted", "unsorted+absent") and kind != "str" and len(ch) >= 2:
                         for egkind in ("index", "list", "ndarray"):
@@ -215,6 +223,6 @@ def replay(payload):
     res = Result()
     c = payload["case"]
     lt = tuple(unjson_float(c["labels"])) if c["kind"] == "float" else tuple(c["labels"])
-    check_point(res, c["kind"], lt, c["sort"], c["expected"], tuple(c["chunks"]) if c.get("chunks") else None, c.get("method"),
+    check_point(res, c["kind"], lt, c["sort"], c["expected"], tuple(c["chunks"]) if c.get("chunks") else None, c.get("method"), func=c.get("func", "sum"),
                 labels_dask=c.get("labels_dask", False), egkind=c.get("egkind", "ndarray"), reindex=c.get("reindex"))
     return res
